@@ -405,6 +405,10 @@ fn stream_thread(mut rx: RxH, mode: StreamMode, sh: &Shared, tid: usize, cfg: &F
 
 pub fn run_once(cfg: &FutCfg, shard: &mut Shard) -> (u64, bool, bool) {
     payload::reset_ledger();
+    // Under Miri a move-out queue runs with a pointer-free payload: the speculative bitwise read
+    // that try_recv discards when it loses the position race would otherwise be reported as a
+    // dangling Box although it is never used (C04 only speaks about values that are returned).
+    payload::set_pod_mode(cfg!(miri) && cfg.fl == Flavour::Mpmc);
     api::reset_ids();
     hist::clock_reset();
     let mut rng = Rng::new(cfg.seed);
